@@ -14,8 +14,8 @@ type zzBehaviour struct {
 	Panics  bool
 	// PanicsEarly: the panic happens in CheckApplies rather than in Execute
 	PanicsEarly bool
-	Status  LintStatus
-	Details string
+	Status      LintStatus
+	Details     string
 }
 
 type zzEvent struct {
